@@ -15,7 +15,15 @@ spec -> code: TLC builds argument lists by actions (a bottom-up stack machine, s
     aggregate value, as list item, as dict KEY and dict value, as item / key / value coming out of
     a `*` / `**` / `...` spread (variables and single-tag strings as operands), as filter argument,
     inside a single-tag nested string ("{{ amp }}": the original value, unescaped, None stays
-    None) and inside a rendered nested string ("{{ amp }}!": what stock Django renders) - and
+    None) and inside a rendered nested string ("{{ amp }}!": what stock Django renders); T / U: the
+    Python TYPE of container values (TagArgs!SeqKinds / MapKinds) - a spread takes a MAPPING (dict,
+    OrderedDict, and the mappings that are no dict: MappingProxyType, ChainMap, UserDict) as
+    keyword arguments (`...m`) / entries (`{**m}`) and any OTHER ITERABLE (list, tuple, range, a
+    keys() view, empty ones) as positional arguments (`...it`) / items (`[*it]`), as Python does for
+    f(*it, **m), [*it], {**m}; every type is the operand of every spread it fits (variable and
+    single-tag string), stands alone and among other arguments, and is also passed NOT spread (then the
+    receiver gets the object itself); the second context gives each variable another type of the
+    same kind - and
     exports every list with its text under each style of a pairwise covering array of layout
     knobs (TLC checks the coverage as an ASSUME) and with Denote(args).  Each text is placed in a
     probe tag built with @template_tag (records *args / **kwargs / flags) and in
@@ -55,6 +63,9 @@ TemplateSyntaxError (the current scanner does, counted as zone:...:refused in th
 if it is accepted it must denote the same values.
 `...[..]` / `...{..}` at top level is listed both as supported and as invalid in parse_tag's
 docstring; the tests and the changelog use it, so it is generated as valid.
+Container types: a mapping spread with `*` / an iterable that is no mapping spread with `**`, and
+`...x` of a str / bytes / generator / set (order, exhaustion) are not generated (wrong kind or not
+determined); `...m|filter` on the new types is not generated (known finding on the plain ones).
 Values: dict literals follow a Python dict display (an entry whose key equals an earlier one - also
 False == 0 - replaces its value, the earlier key stays); unhashable keys, spreading None or text, and
 non-str keys in a dict spread into keyword arguments are not generated (wrong kind: unspecified).
@@ -77,6 +88,8 @@ from .core import Check, MachineryError, workdir
 PID = "C02"
 RULE = ("TLC (MC_C02) enumerates by BFS every argument list inside the bounds of configurations V/A/R/I (syntax) "
         "and N/M (value-sensitive alphabets: None / falsy values, HTML-special text in every argument position) and "
+        "T/U (containers by Python type - tuple, range, keys(), MappingProxyType, ChainMap, UserDict, OrderedDict - as "
+        "operand of every spread and as plain values) and "
         "samples deeper ones with -simulate (S); each list is replayed on the probe tag and on the component tag "
         "in k layouts of a 15-row pairwise covering array (quick k=3, thorough k=5 - N/M: 3 -, rotating with the case number); "
         "every compiled template is rendered with two contexts that differ in every variable (probe tag: every "
@@ -92,7 +105,9 @@ ASSUMPTIONS = [
     "two renders per compiled template (and two loop iterations) stand for 'rendered again with other data'; "
     "the loaded libraries are one custom library (a filter, a simple_tag), i18n and l10n",
     "context values: int, str (also with & < > ' \"), SafeString, None, bool, 0, '', lists and dicts of these "
-    "(None / 0 / '' / text as dict keys); no floats, lazy strings, callables or objects with attributes",
+    "(None / 0 / '' / text as dict keys), and the same items / entries held by a tuple, range, dict keys() view, "
+    "OrderedDict, MappingProxyType, ChainMap, UserDict; no floats, lazy strings, callables, generators, sets or "
+    "objects with attributes",
     "top-level `...[..]` / `...{..}` is valid (docstring is contradictory; tests and changelog use it)",
 ]
 PROBE_TAG = "vfprobe"
@@ -129,19 +144,28 @@ CONFIGS = {
 # dict entry, as operand of every spread; M: the core of it in two-entry dicts / entry + spread /
 # two-item lists.  The optional 8th number bounds the items of a list literal.  The random walks
 # (S) use the small alphabet and the core together.
+# T / U: the alphabets "types" / "tcore" - containers by Python TYPE (TagArgs!SeqKinds / MapKinds: tuple,
+# range, keys() view; MappingProxyType, ChainMap, UserDict, OrderedDict) as operand of every spread and
+# as plain values.  T: one argument (a leaf, a one-item list, a dict of up to two entries / spreads);
+# U: several arguments without literals (a spread among other arguments).
 VALUE_CONFIGS = {
     "quick": {
         "N": (2, 1, 1, 2, 1, "vals", False, 1),
         "M": (4, 1, 1, 2, 1, "core", False),
+        "T": (2, 1, 1, 2, 1, "types", False, 1),
+        "U": (2, 0, 1, 2, 2, "tcore", False),
     },
     "thorough": {
         "N": (2, 2, 2, 2, 1, "vals", False, 1),
         "M": (4, 1, 1, 2, 1, "core", False),
         "D": (3, 2, 2, 2, 1, "core", False),      # the core nested two levels deep
+        "T": (2, 1, 1, 2, 1, "types", False),
+        "U": (3, 0, 1, 2, 3, "tcore", False),
     },
     "selftest": {
         "N": (2, 1, 1, 2, 1, "vals", False, 1),
         "M": (3, 1, 1, 2, 1, "core", False),
+        "T": (2, 1, 1, 2, 1, "types", False, 1),
     },
 }
 SIM_CONFIGS = {"S": (9, 5, 3, 3, 4, "mixed", False)}
@@ -278,7 +302,61 @@ def lit(v: Dict[str, Any]) -> Any:
         return [lit(x) for x in v["items"]]
     if t == "dict":
         return {lit(x["k"]): lit(x["v"]) for x in v["items"]}
+    if t in SEQ_KINDS:
+        return make_seq(t, [lit(x) for x in v["items"]])
+    if t in MAP_KINDS:
+        return make_map(t, [(lit(x["k"]), lit(x["v"])) for x in v["items"]])
     raise MachineryError(f"not a literal: {v}")
+
+
+# Python types of container values (TagArgs!SeqKinds / MapKinds): kind name <-> Python object
+SEQ_KINDS = ("list", "tuple", "range", "keys")
+MAP_KINDS = ("dict", "odict", "mproxy", "chainmap", "userdict")
+
+
+def make_seq(kind: str, items: List[Any]) -> Any:
+    if kind == "list":
+        return list(items)
+    if kind == "tuple":
+        return tuple(items)
+    if kind == "keys":
+        if len(dict.fromkeys(items)) != len(items):
+            raise MachineryError(f"keys view with repeated items: {items}")
+        return dict.fromkeys(items).keys()
+    if kind == "range":
+        if not items:
+            return range(0)
+        if items != list(range(items[0], items[0] + len(items))):
+            raise MachineryError(f"not a range: {items}")
+        return range(items[0], items[0] + len(items))
+    raise MachineryError(f"unknown iterable kind {kind}")
+
+
+def make_map(kind: str, pairs: List[Tuple[Any, Any]]) -> Any:
+    import collections
+    import types
+    if len(dict(pairs)) != len(pairs):
+        raise MachineryError(f"mapping with repeated keys: {pairs}")
+    if kind == "dict":
+        return dict(pairs)
+    if kind == "odict":
+        return collections.OrderedDict(pairs)
+    if kind == "mproxy":
+        return types.MappingProxyType(dict(pairs))
+    if kind == "chainmap":      # the first entry in the first map, the others in the second
+        return collections.ChainMap(dict(pairs[:1]), dict(pairs[1:]))
+    if kind == "userdict":
+        return collections.UserDict(dict(pairs))
+    raise MachineryError(f"unknown mapping kind {kind}")
+
+
+def kind_of(x: Any) -> Optional[str]:
+    """Kind name of a container value by its exact Python type (None: not one of the modelled types)."""
+    import collections
+    import types
+    return {list: "list", tuple: "tuple", range: "range", type({}.keys()): "keys",
+            dict: "dict", collections.OrderedDict: "odict", types.MappingProxyType: "mproxy",
+            collections.ChainMap: "chainmap", collections.UserDict: "userdict"}.get(type(x))
 
 
 # ------------------------------------------------------------------ stock Django = meaning of leaves
@@ -371,9 +449,11 @@ def same(a: Any, b: Any) -> bool:
         return str(a) == str(b)
     if type(a) is not type(b):
         return False
-    if isinstance(a, (list, tuple)):
+    if isinstance(a, (list, tuple)) or kind_of(a) in SEQ_KINDS:      # (equal types: checked above)
+        a, b = list(a), list(b)
         return len(a) == len(b) and all(same(x, y) for x, y in zip(a, b))
-    if isinstance(a, dict):
+    if isinstance(a, dict) or kind_of(a) in MAP_KINDS:
+        a, b = dict(a), dict(b)
         if len(a) != len(b):
             return False
         for k, v in a.items():
@@ -604,7 +684,7 @@ def export_cases(tier: str, w: Path, with_props: bool = True, sim: bool = False,
             ex.shutdown(wait=True)
     if lazy_props:
         # the small exports first: their replay overlaps with the TLC runs that are still going on
-        first = ("M", "N", "S", "D", "I", "V", "A", "R")
+        first = ("T", "U", "M", "N", "S", "D", "I", "V", "A", "R")
         order = [n for n in first if n in futs] + [n for n in futs if n not in first]
         return ((n, one(n)) for n in order), props
     try:
@@ -789,18 +869,26 @@ class Gen:
         self.ntpl = len(header["tpltab"])
         self.tpltab = header["tpltab"]
         self.ctx = header["ctx"]
+        self.ctxs = header.get("ctxs") or [header["ctx"]]
 
     # value-sensitive variables of the specification's context: None / falsy values, failed
     # lookups, text with HTML-special characters (plain and marked safe), containers holding them
     VAL_VARS = ["nn", "None", "f", "False", "True", "z", "es", "nope", "hs.1", "dh.u", "amp", "h", "sf", "hs", "dn", "dh", "it"]
+    # containers by Python type (TagArgs!SeqKinds / MapKinds): iterables that are no list, mappings
+    # that are no dict (SEQ_VARS / KWMAP_VARS: str keys only / MAP_VARS: any key), here as plain values
+    SEQ_VARS = ["tp", "rg", "ks", "et"]
+    KWMAP_VARS = ["mp", "cm", "ud", "od", "em"]
+    MAP_VARS = ["mn"]
 
     def plain_leaf(self):
         r = self.r
         k = r.randrange(11)
         if k == 0:
             return V(r.choice(["x", "s", "xs", "ys", "e0", "d", "d2", "o.p.q", "xs.1", "o.p", "nope"]))
-        if k in (9, 10):
+        if k == 9:
             return V(r.choice(self.VAL_VARS))
+        if k == 10:
+            return V(r.choice(self.VAL_VARS + self.SEQ_VARS + self.KWMAP_VARS + self.MAP_VARS))
         if k == 1:
             return N(r.choice(["42", "-1.5", "0", "7"]))
         if k in (2, 3):
@@ -851,6 +939,8 @@ class Gen:
             return self.lst(depth - 1)
         if k == 1:
             return F(V("xs"), ("slice", S(9)))
+        if k == 2:      # an iterable of another Python type than list
+            return r.choice([V(n) for n in self.SEQ_VARS] + [{"t": "tpl", "id": 29}])
         return r.choice([V("xs"), V("ys"), V("e0"), V("hs"), {"t": "tpl", "id": 16}])
 
     def dict_operand(self, depth, plain=False):
@@ -858,6 +948,9 @@ class Gen:
         r = self.r
         if r.randrange(3) == 0 and depth > 0:
             return self.dct(depth - 1, plain)
+        if r.randrange(3) == 0:      # a mapping of another Python type than dict
+            return r.choice([V(n) for n in self.KWMAP_VARS] + [{"t": "tpl", "id": 30}]
+                            + ([] if plain else [V(n) for n in self.MAP_VARS]))
         return r.choice([V("d"), V("d2"), V("dh"), {"t": "tpl", "id": 18}]
                         + ([] if plain else [V("dn"), {"t": "tpl", "id": 17}]))
 
@@ -895,7 +988,7 @@ class Gen:
         if v["t"] == "tpl":
             v = V(self.tpltab[v["id"] - 1]["inner"][0])
         if v["t"] == "var":
-            return {e["k"]["s"] for e in self.ctx[v["n"]]["items"] if e["k"]["t"] == "str"}
+            return {e["k"]["s"] for c in self.ctxs for e in c[v["n"]]["items"] if e["k"]["t"] == "str"}
         if v["t"] == "filt":
             return self.lit_keys(V("d"), strtab) | self.lit_keys(V("d2"), strtab)
         out = set()
@@ -1065,10 +1158,11 @@ def typed(x: Any) -> Dict[str, Any]:
         return {"t": "float", "s": repr(x)}
     if isinstance(x, str):
         return {"t": "str", "s": str(x)}
-    if type(x) in (list, tuple):
-        return {"t": "list", "items": [typed(y) for y in x]} if type(x) is list else {"t": "other", "s": "tuple:" + repr(x)}
-    if type(x) is dict:
-        return {"t": "dict", "items": [{"k": typed(k), "v": typed(v)} for k, v in x.items()]}
+    k = kind_of(x)
+    if k in SEQ_KINDS:
+        return {"t": k, "items": [typed(y) for y in x]}
+    if k in MAP_KINDS:
+        return {"t": k, "items": [{"k": typed(kk), "v": typed(v)} for kk, v in x.items()]}
     return {"t": "other", "s": type(x).__name__ + ":" + repr(x)}
 
 
@@ -1109,7 +1203,7 @@ def slot_applies(args, ctxspec, tpltab=None) -> bool:
                 e = tpltab[v["id"] - 1]
                 if e["single"] and len(e["inner"]) == 1 and e["inner"][0] in ctxspec:
                     v = V(e["inner"][0])
-            if v["t"] == "dict" or (v["t"] == "var" and ctxspec.get(v["n"], {}).get("t") == "dict"):
+            if v["t"] == "dict" or (v["t"] == "var" and ctxspec.get(v["n"], {}).get("t") in MAP_KINDS):
                 continue
         return False
     return True
@@ -1572,6 +1666,54 @@ def selftest(tier: str) -> int:
             out.append(p)
         return out
 
+    # ---- the Python type of a spread operand: mapping -> keywords / entries, other iterable -> positionals / items
+    def top_spread(variant):
+        def resolve_params(tag, params, context):
+            out = []
+            for p in params:
+                v = p.value.resolve(context)
+                if not p.value.spread:
+                    out.append(ttag.TagParam(key=p.key, value=v))
+                elif isinstance(v, dict) or (variant == "list-or-mapping" and not isinstance(v, (list, tuple))):
+                    out.extend(ttag.TagParam(key=k, value=x) for k, x in v.items())
+                else:       # "dict-only": every mapping that is no dict is iterated (its keys become positionals)
+                    out.extend(ttag.TagParam(key=None, value=x) for x in v)
+            if tag == "html_attrs":
+                out = ttag.merge_repeated_kwargs(out)
+            return ttag.process_aggregate_kwargs(out)
+        return resolve_params
+
+    def struct_spread(variant):
+        def resolve(self, context):
+            # only a list is spliced into a list literal / only a dict into a dict literal; another iterable
+            # / mapping is converted "defensively" in a way that loses what it holds
+            if self.type == "simple":
+                return orig_resolve(self, context)
+            self.compile()
+            spread = [(isinstance(e, tp.TagValueStruct) and e.spread) or (isinstance(e, tp.TagValue) and e.is_spread)
+                      for e in self.entries]
+            vals = [e.resolve(context) for e in self.entries]
+            if self.type == "list":
+                out: List[Any] = []
+                for sp, v in zip(spread, vals):
+                    if sp and (variant != "list-only" or isinstance(v, list)):
+                        out.extend(v)
+                    else:
+                        out.append(v)
+                return out
+            res: Dict[Any, Any] = {}
+            pair: List[Any] = []
+            for sp, v in zip(spread, vals):
+                if sp:
+                    res.update(v if variant != "dict-only" or isinstance(v, dict) else dict.fromkeys(v))
+                else:
+                    pair.append(v)
+                    if len(pair) == 2:
+                        res[pair[0]] = pair[1]
+                        pair = []
+            return res
+        return resolve
+
     # ---- the place and the moment of the evaluation: loaded libraries, repeated renders
     orig_dyn_init = dexpr.DynamicFilterExpression.__init__
 
@@ -1623,6 +1765,10 @@ def selftest(tier: str) -> int:
         return self._vf_memo
 
     probes = [
+        ("top-level-spread-only-dict-gives-kwargs", many((dnode, "resolve_params", top_spread("dict-only")))),
+        ("top-level-spread-only-list-tuple-give-args", many((dnode, "resolve_params", top_spread("list-or-mapping")))),
+        ("list-literal-spread-only-splices-lists", many((tp.TagValueStruct, "resolve", struct_spread("list-only")))),
+        ("dict-literal-spread-only-merges-dicts", many((tp.TagValueStruct, "resolve", struct_spread("dict-only")))),
         ("nested-string-parser-from-engine-defaults", many((dexpr.DynamicFilterExpression, "__init__", dyn_init("engine-default")))),
         ("nested-string-parser-forgets-loaded-tags", many((dexpr.DynamicFilterExpression, "__init__", dyn_init("filters-only")))),
         ("constant-head-value-memoised", many((tp.TagValue, "resolve", constant_head_memoised))),
